@@ -84,7 +84,9 @@ package ice
 //@   site call retainShared#1 assume reference-counter-not-exhausted: conn.refs < 2147483647
 //@   site call retainShared#1 assert C15 C13 retains-a-reference-of-the-connection-found: *arg0 == conn.refs && foundOpen && hadHandles
 //@   site call retainShared#1 ghost retained := result
-//@   site call newSharedPacketConn#1 assert C15 C13 a-handle-is-handed-out-only-on-a-connection-just-created-never-handed-out-before-or-kept-alive-by-a-retained-reference: createdNow || (foundOpen && (!hadHandles || retained))
+//@   ghostvar claimed bool = false
+//@   site call ClearAliveTimer#1 ghost claimed := result
+//@   site call newSharedPacketConn#1 assert C15 C13 a-handle-is-handed-out-only-on-a-connection-just-created-never-handed-out-before-or-kept-alive-by-a-retained-reference: createdNow || (foundOpen && claimed && (!hadHandles || retained))
 //@   site store handedOut#1 assert C15 C13 marks-the-connection-it-hands-out: object == conn && value == true
 //@   site call newSharedPacketConn#1 assert hands-out-a-handle-on-that-connection: arg0.payload == conn
 //@   ghostvar closedUnderLock bool = false
@@ -217,3 +219,19 @@ package ice
 //@   opt nosafety
 //@   site call GetConnByUfrag#1 assert first-mux-with-exactly-this-key: recv == m.muxes[0] && arg0 == ufrag && arg1 == isIPv6 && arg2 == local
 //@   ensures no-mux-is-an-error: old(len(m.muxes)) == 0 ==> result0 == nil && result1 != nil
+
+// The alive timer and the user's claim race for a provisional connection; whoever takes the connection's lock
+// first wins: an expired connection is never claimed (GetConnByUfrag creates a fresh one), a claimed one is
+// never closed by its timer.
+//@ func (*tcpPacketConn).ClearAliveTimer
+//@   props C15 C13
+//@   opt nosafety
+//@   modifies t.mu, t.aliveCleared, fam:H_time.Timer.*
+//@   ensures an-expired-connection-cannot-be-claimed: result == !old(t.expired)
+//@   ensures a-claim-is-recorded-for-the-timer-to-see: result ==> t.aliveCleared
+//@ func newTCPPacketConn$1
+//@   props C15 C13
+//@   opt nosafety
+//@   site call Close#1 assert the-expiry-closes-only-a-connection-nobody-has-claimed: recv == packet && !packet.aliveCleared && packet.expired
+//@ enumerate C15 C13 stores ice.tcpPacketConn.expired in newTCPPacketConn
+//@ enumerate C15 C13 stores ice.tcpPacketConn.aliveCleared in (*tcpPacketConn).ClearAliveTimer
